@@ -400,9 +400,13 @@ def check_c15(seed, tier):
                                                    T["processing_options"], T["map_projections"], T["orbit_directions"])]
     keys = ["observation_modes", "observation_directions", "processing_levels", "processing_options", "map_projections", "orbit_directions"]
     attr_names = ["observation_mode", "observation_direction", "processing_level", "processing_option", "map_projection", "orbit_direction"]
-    for pid in (rng.sample(ids, 12) if tier == "quick" else rng.sample(ids, 150)):
+    for k_pid, pid in enumerate(rng.sample(ids, 12) if tier == "quick" else rng.sample(ids, 150)):
         yy, mm = rng.randint(14, 49), rng.randint(1, 12)
-        dd = rng.randint(1, 28)
+        dd = rng.randint(1, [31, 29 if yy % 4 == 0 else 28, 31, 30, 31, 30, 31, 31, 30, 31, 30, 31][mm - 1])
+        if k_pid % 4 == 1:
+            yy, mm, dd = rng.choice([16, 20, 24, 28, 32, 36, 40, 44, 48]), 2, 29      # leap days are acquisition days too
+        elif k_pid % 4 == 3:
+            mm, dd = rng.choice([(1, 31), (3, 31), (12, 31), (4, 30), (2, 28)])
         scene = "".join(rng.choice("ABCDEFGHIJKLMNOPQRSTUVWXYZ0123456789") for _ in range(5)) + f"{rng.randint(0, 99999):05d}{rng.randint(0, 9999):04d}-{yy:02d}{mm:02d}{dd:02d}"
         scan = rng.choice([None, "F" + str(rng.randint(0, 9)), "B" + str(rng.randint(0, 9))])
         pol = rng.choice(["HH", "HV", "VH", "VV"])
@@ -484,7 +488,9 @@ def check_c15(seed, tier):
            "filename": decoders.decode_filename, "groupname": filename_to_groupname}
     for _ in range(150 if tier == "quick" else 3000):
         pid = rng.choice(ids)
-        scene_ok = f"ALOS2{rng.randint(0, 99999):05d}{rng.randint(0, 9999):04d}-{rng.randint(14, 49):02d}{rng.randint(1, 12):02d}{rng.randint(1, 28):02d}"
+        scene_ok = f"ALOS2{rng.randint(0, 99999):05d}{rng.randint(0, 9999):04d}-" + rng.choice(
+            [f"{rng.randint(14, 49):02d}{rng.randint(1, 12):02d}{rng.randint(1, 28):02d}", f"{rng.choice([16, 20, 24, 28, 40]):02d}0229",
+             f"{rng.randint(14, 49):02d}{rng.choice(['0131', '0331', '1231', '0430', '0228'])}"])
         scan_ok = rng.choice("BF") + str(rng.randint(0, 9))
         kind = rng.choice(list(fns))
         base = {"scene_id": scene_ok, "product_id": pid, "scan_info": scan_ok,
@@ -512,7 +518,9 @@ def check_c15(seed, tier):
     import copy
     for _ in range(40 if tier == "quick" else 600):
         pid = rng.choice(ids)
-        scene_ok = f"ALOS2{rng.randint(0, 99999):05d}{rng.randint(0, 9999):04d}-{rng.randint(14, 49):02d}{rng.randint(1, 12):02d}{rng.randint(1, 28):02d}"
+        scene_ok = f"ALOS2{rng.randint(0, 99999):05d}{rng.randint(0, 9999):04d}-" + rng.choice(
+            [f"{rng.randint(14, 49):02d}{rng.randint(1, 12):02d}{rng.randint(1, 28):02d}", f"{rng.choice([16, 20, 24, 28, 40]):02d}0229",
+             f"{rng.randint(14, 49):02d}{rng.choice(['0131', '0331', '1231', '0430', '0228'])}"])
         scan_ok = rng.choice("BF") + str(rng.randint(0, 9))
         pol = rng.choice(["HH", "HV", "VH", "VV"])
         fn = f"IMG-{pol}-{scene_ok}-{pid}" + rng.choice(["", "-" + scan_ok])
@@ -648,6 +656,9 @@ def check_c14(seed, tier):
         for j in range(5):
             alphabet = ['a', 'B', '7', ' ', '=', '"', '="', '"=', ' = ', '""', '_', '.']
             val = "".join(rng.choice(alphabet) for _ in range(rng.randint(0, 8))) if j else 'k="v" and x = "y"'
+            if j == 4:
+                # valid UTF-8 that is not in a Unicode normal form (as macOS / some editors write it): stored code point for code point
+                val = rng.choice(["Cafe\u0301 du Nord", "\u212bngstr\u00f6m \u2126", "\u30af\u3099\u30e9\u30b9", "\u1112\u1161\u11ab", "a\u0323\u0307 o\u0307\u0323"])
             extra[f"Note{j}x{rng.randint(0, 99)}"] = val
         for eol in ("\n", "\r\n"):
             ls = list(prod.summary_text.split("\n")[:-1])
